@@ -69,7 +69,11 @@ Ctx.reuse = _reuse
 def run_property(prop: str, tier: str, root: str) -> int:
     ctx = Ctx(prop, tier, root)
     mod = importlib.import_module(f"sa.rules.{prop.lower()}")
-    mod.run(ctx)
+    try:
+        mod.run(ctx)
+    except AnalysisInconclusive as e:
+        # an anchor that the wiring of the rules itself needs is gone: what was decided before stands, the rest is INCONCLUSIVE
+        ctx.rep.inconclusive(e.rule, e.where, e.why + " (the remaining rules of this property were not run)")
     # call-resolution statistics over the analysed functions
     for q in sorted(ctx.rep.analysed_functions):
         f = ctx.prog.func(q)
